@@ -50,6 +50,7 @@ func checkC08(w *World, r *Report) {
 	r.Rule("C08.same", "P6", "pool send: the value added to Sent, the value passed to account creation and the value transferred are the same amount; direct creation: the coins vested and the coins transferred are the same Coins", 4)
 	r.Rule("C08.vested", "P6", "original vesting depends on amount and on the vesting type's Free, passes through TruncateInt and never a rounding-up operator; the transferred coin does not depend on Free", 3)
 	r.Rule("C08.schedule", "P5,P6,P7", "restart: (start,end) depend on block time and LockupPeriod, end also on VestingPeriod; no restart: both are the pool's LockEnd; account start = max(lockEnd, now) (ordering table); end passed through; direct creation passes the message's start and end unchanged", 9)
+	r.Rule("C08.avail", "P5,P7", "= C05.avail for Sent: a send is rejected exactly when the pool holds less than the requested amount (ordering table over currently locked vs the amount that leaves the pool), and a negative amount is rejected", 3)
 	r.Rule("C08.pool", "P8", "sibling agreement: the pool a send debits is selected by exact equality of the stored name with the requested name, the same comparison that keeps pool names unique per owner at creation", 2)
 	r.Rule("C08.fresh", "P5", "the account written by account creation is built from NewAccountWithAddress(to) of the same address, as a ContinuousVestingAccount with the given original vesting, start and end", 4)
 	if !ro.checkFloors(r) {
@@ -158,6 +159,8 @@ func checkC08(w *World, r *Report) {
 		r.Check(rec == toP, "C08.fresh", "newVestingAccount: transfer recipient is the created account", w.Pos(xfer.Instr.Pos()), "same address value", "coins are sent to another address than the created account")
 	}
 
+	// ---------- C08.avail ----------
+	shareRule(w, r, checkC05, "C05.avail", "C08.avail", func(o Obligation) bool { return strings.Contains(o.Construct, "Sent") })
 	// ---------- C08.pool ----------
 	// the pool debited is the pool named: selected by exact equality of the stored name with the requested name -
 	// the very comparison by which pool names are kept unique per owner (addVestingPool, checkDuplications)
